@@ -1,6 +1,7 @@
 """C09 — time windows: trigger discipline and agreement of the two ingest paths (structural clauses)."""
 from lib import facts as F
 from lib import guards as G
+from lib import linloop as L
 
 WIN = "kolibrie::rsp::s2r::Window"
 CSW = "kolibrie::rsp::s2r::CSPARQLWindow"
@@ -57,6 +58,11 @@ def run(R):
     R.rule("C09-R2", "sibling agreement: both ingest paths assign content under the half-open test open <= t < close, choose "
                      "the reported window by maximal close, ask the report strategy with the event time, and replace the "
                      "active windows only after reporting; the close-strategy reports a window only when close <= t")
+    R.rule("C09-R3", "opening coverage: the loop in scope() that opens windows for an event inserts intervals of length width, "
+                     "advances the interval start by exactly slide per iteration, and can be left only when the next interval "
+                     "would start after the event time - so no aligned interval containing the event is skipped (linear "
+                     "arithmetic over the loop's header values; numeric casts taken as value-preserving)")
+    r3(R)
     bodies = {}
     for nm in INGEST:
         b = R.body("C09-R1", "CSPARQLWindow::%s" % nm, crate="kolibrie")
@@ -155,6 +161,71 @@ def run(R):
         cm = window_cmps(prog, prog.family(rp.key))
         R.ob("C09-R2", "close-strategy", "OnWindowClose reports a window only when close <= t (found %s)" % sorted(cm), ("Le", "close", "t") in cm
              and not [c for c in cm if c[1] == "close" and c != ("Le", "close", "t")], where=rp.where())
+
+
+def _nonneg(form, strict_const):
+    """form >= 0 (or > 0) for all values of its symbols, using only: window parameters are unsigned"""
+    for t, c in form.items():
+        if t == "":
+            continue
+        if t in ("self.width", "self.slide") and c >= 0:
+            continue
+        return False
+    k = form.constant()
+    return k > 0 if strict_const else k >= 0
+
+
+def r3(R):
+    sc = R.body("C09-R3", "CSPARQLWindow::scope", crate="kolibrie")
+    if sc is None:
+        return
+    R.saw(sc)
+    n = 0
+    for h, blocks in sc.loops():
+        ins = [c for c in sc.calls() if c.bb in blocks and c.name() == "insert" and len(c.args) == 3 and "HashMap" in (c.pretty or "")
+               and any(e.get("n") == "active_windows" for e in (sc.origin(c.args[0], stop_named=False)[1]["p"]
+                                                                 if sc.origin(c.args[0], stop_named=False)[0] == "place" else []))]
+        if not ins:
+            continue
+        # innermost loop only
+        if any(h2 != h and h2 in blocks and ins[0].bb in b2 for h2, b2 in sc.loops()):
+            continue
+        n += 1
+        lv = L.LoopView(sc, h, blocks)
+        c = ins[0]
+        wl = sc.alias_root(c.args[1])
+        pos = (c.bb, 10 ** 6)
+        opn = lv.place({"l": wl, "p": [{"k": "field", "n": "open", "i": 0}], "t": ""}, pos)
+        cls = lv.place({"l": wl, "p": [{"k": "field", "n": "close", "i": 1}], "t": ""}, pos)
+        sg = lv.sigma()
+        nxt = L.substitute(opn, sg)
+        width = cls.add(opn, -1)
+        R.ob("C09-R3", "length", "every interval opened by scope() has length width (close - open = %s)" % width.render(),
+             width.render() == "self.width", where=sc.where(c.ln))
+        step = nxt.add(opn, -1)
+        R.ob("C09-R3", "step", "consecutive intervals opened by scope() start exactly one slide apart (step = %s)" % step.render(),
+             step.render() == "self.slide", where=sc.where(c.ln))
+        exits = lv.exit_switches()
+        R.ob("C09-R3", "exits", "the opening loop has a comparison-controlled exit", len(exits) >= 1, where=sc.where(c.ln))
+        for bb, t, ex, stay in exits:
+            ec = lv.exit_condition(bb, t, ex)
+            ln = t.get("ln")
+            if ec is None:
+                R.ob("C09-R3", "exit-form:%d" % n, "the exit of the opening loop is a comparison of linear forms", False, where=sc.where(ln))
+                continue
+            form, isfloat, kind = ec
+            # the interval that the next insertion would create: after the back edge if the insertion precedes the exit test
+            after_insert = bb in sc.reach_from(sc.succ(c.bb), avoid={h})
+            nopen = nxt if after_insert else opn
+            d = nopen.add(L.Lin.sym("arg:event_time"), -1).add(form, -1)
+            ok = _nonneg(d, strict_const=(kind == "nonstrict"))
+            R.ob("C09-R3", "covers:%d" % n, "scope() stops opening intervals only when the next one would start after the event "
+                 "(leaves when %s %s 0; next start - event time = %s)" % (form.render(), ">" if kind == "strict" else ">=", nopen.add(L.Lin.sym("arg:event_time"), -1).render()),
+                 ok, where=sc.where(ln),
+                 detail=None if ok else "an aligned interval that already contains the event is not opened, so the event is missing from it when it is reported")
+        if lv.assumptions:
+            R.advisory("C09-R3", "assumptions: " + "; ".join(sorted(lv.assumptions)))
+    R.floor("C09-R3", "window-opening loops in scope()", n, 1)
 
 
 def _is_app_time(b, op):
